@@ -159,6 +159,58 @@ def r3(ctx, Fs):
 CFG_RX = re.compile(r'feature\s*=\s*"(ibig|dashu|malachite|malachite-base|malachite-nz|num_bigint|rug)"')
 
 
+def macro_blocks(lines):
+    """(name, first line, last line) of the `macro_rules!` items of a file (brace matching on the raw text; comments cannot unbalance a definition
+    that compiles in practice, and a wrong span only makes the rule stricter or reports a site)."""
+    out = []
+    i = 0
+    while i < len(lines):
+        m = re.match(r'\s*macro_rules!\s+(\w+)', lines[i])
+        if not m:
+            i += 1
+            continue
+        depth = 0
+        j = i
+        started = False
+        while j < len(lines):
+            code = lines[j].split('//')[0]
+            depth += code.count('{') + code.count('(') + code.count('[') - code.count('}') - code.count(')') - code.count(']')
+            if '{' in code or '(' in code:
+                started = True
+            if started and depth <= 0:
+                break
+            j += 1
+        out.append((m.group(1), i + 1, j + 1))
+        i = j + 1
+    return out
+
+
+def macro_confined(name, macros, repo, lo, hi, depth=0):
+    if depth > 4:
+        return False
+    rx = re.compile(r'\b%s!\s*[\(\[\{]' % re.escape(name))
+    uses = 0
+    for root, dirs, files in os.walk(os.path.join(repo, 'src')):
+        for fn in files:
+            if not fn.endswith('.rs'):
+                continue
+            p = os.path.join(root, fn)
+            rel = os.path.relpath(p, repo)
+            for i, l in enumerate(open(p, encoding='utf-8', errors='replace').read().split('\n'), 1):
+                code = l.split('//')[0]
+                if not rx.search(code) or re.match(r'\s*macro_rules!', code):
+                    continue
+                uses += 1
+                if rel != 'src/geometry.rs':
+                    return False
+                if lo <= i <= hi:
+                    continue
+                inside = [m for m in macros if m[1] <= i <= m[2] and m[0] != name]
+                if not inside or not all(macro_confined(m[0], macros, repo, lo, hi, depth + 1) for m in inside):
+                    return False
+    return uses > 0
+
+
 def r4(ctx, Fs):
     F = Fs['default']
     pb = F.body_by_suffix(PRED)
@@ -183,6 +235,7 @@ def r4(ctx, Fs):
                         continue
                     break
             in_ce = False
+            macros = macro_blocks(lines) if rel == 'src/geometry.rs' else []
             for i, l in enumerate(lines, 1):
                 if not CFG_RX.search(l) or l.strip().startswith('//'):
                     continue
@@ -190,6 +243,12 @@ def r4(ctx, Fs):
                 where_ok = False
                 if rel == 'src/geometry.rs' and (i <= header_end or lo <= i <= hi):
                     where_ok = True
+                if rel == 'src/geometry.rs' and not where_ok:
+                    # inside a helper macro of the predicate: allowed when every expansion of that macro lies inside the predicate (or inside another
+                    # such macro) — R3 compares all other bodies across the builds, so an expansion elsewhere would show there as well
+                    for name, a, b in macros:
+                        if a <= i <= b and macro_confined(name, macros, repo, lo, hi):
+                            where_ok = True
                 if rel == 'src/lib.rs':
                     # the mutual-exclusion block: a #[cfg(any(all(..)))] followed by compile_error!
                     j = i
